@@ -4,22 +4,22 @@ property, extra trusted-base entries, what is partial."""
 PROPS = {
     "C01": {
         "suites": ["crash", "segment"],
-        "partial": "theorems are at the byte level (L1): acknowledged batches survive a clean restart and any torn later write of the tail file, for every chunk subset; the WAL-level statement over all workloads, crash points (incl. rotation, truncation, recovery itself, nested) and persistence choices is decided by the crash suite, which evaluates the ghost-state monitor on the real code for every crash point of generated workloads (tens of thousands of images per run) — an exploration, not a proof; the L2 crash-refinement theorem of DESIGN §6 is not mechanised",
+        "partial": "the WAL-level crash statement is a theorem about the I/O-action model Model/Crash.lean (programs of StoreLogs with rotation and base reset, both truncations, Set and Open; process crash and power loss with any per-file choice of surviving un-fsynced batches and directory entries; any number of recoveries themselves cut by crashes), proved for every state satisfying the invariant QuiescentS, which is itself proved to hold initially, after every call and after every recovery; the model is tied to wal.go by the crash suite (per call: the real I/O event sequence = the model's program; per crash point and {process crash, nothing/everything un-fsynced surviving}: the log the real Open recovers = the model's; nested restarts; the invariant evaluated on every shadowed state). Granularity of the model is the batch: that a torn batch is recovered as absent or whole is the byte-level theorem (L1, batch_atomic_any_tear) — the two levels are linked by matching statements and by the chunk-granular crash suite, not by a mechanised composition. I/O errors are C10's; BoltDB's atomic durable commit and the OS fsync contract (C07) are assumed",
         "assumptions": ["disk model of DESIGN §5 (8-byte chunk granularity, fsync semantics, atomic meta commits)", "simfs mirrors the production fs package (probed at start-up; C07 checks the real layer)"],
     },
     "C02": {
         "suites": ["crash", "segment"],
-        "partial": "batch atomicity under every torn write and recovery of untorn files are L1 theorems (with the CRC-collision disjuncts explicit); chains of crashes reduce to the single-crash case because recovery provably leaves a clean region behind the tail; the WAL-level statement is decided by the crash suite's monitors on the real code (exploration)",
+        "partial": "the WAL-level crash statement is a theorem about the I/O-action model Model/Crash.lean (programs of StoreLogs with rotation and base reset, both truncations, Set and Open; process crash and power loss with any per-file choice of surviving un-fsynced batches and directory entries; any number of recoveries themselves cut by crashes), proved for every state satisfying the invariant QuiescentS, which is itself proved to hold initially, after every call and after every recovery; the model is tied to wal.go by the crash suite (per call: the real I/O event sequence = the model's program; per crash point and {process crash, nothing/everything un-fsynced surviving}: the log the real Open recovers = the model's; nested restarts; the invariant evaluated on every shadowed state). Granularity of the model is the batch: that a torn batch is recovered as absent or whole is the byte-level theorem (L1, batch_atomic_any_tear) — the two levels are linked by matching statements and by the chunk-granular crash suite, not by a mechanised composition. CRC-32C collisions are outside the statement (explicit disjuncts of the L1 theorem)",
         "assumptions": ["CRC-32C collisions excluded as stated in the theorem", "disk model of DESIGN §5"],
     },
     "C03": {
         "suites": ["crash", "segment"],
-        "partial": "totality of tail recovery on torn images and usability after reopen (C05 refinement) are theorems; that Open succeeds on every directory state a crash can leave and that the recovered WAL accepts appends/truncations/stable writes durably is decided by the crash suite (every crash point incl. inside Open, continuation workload, chains) on the real code (exploration)",
+        "partial": "the WAL-level crash statement is a theorem about the I/O-action model Model/Crash.lean (programs of StoreLogs with rotation and base reset, both truncations, Set and Open; process crash and power loss with any per-file choice of surviving un-fsynced batches and directory entries; any number of recoveries themselves cut by crashes), proved for every state satisfying the invariant QuiescentS, which is itself proved to hold initially, after every call and after every recovery; the model is tied to wal.go by the crash suite (per call: the real I/O event sequence = the model's program; per crash point and {process crash, nothing/everything un-fsynced surviving}: the log the real Open recovers = the model's; nested restarts; the invariant evaluated on every shadowed state). Granularity of the model is the batch: that a torn batch is recovered as absent or whole is the byte-level theorem (L1, batch_atomic_any_tear) — the two levels are linked by matching statements and by the chunk-granular crash suite, not by a mechanised composition. usability = Open succeeds and every legal call then behaves as specified; the real code's append/read/stable-set after every recovered image is exercised by the crash suite's continuation and usability probes",
         "assumptions": ["disk model of DESIGN §5"],
     },
     "C04": {
         "suites": ["crash", "wal", "fault"],
-        "partial": "what a completed truncation means (old/new FirstIndex/LastIndex, re-appended entries win, identically after reopen) is proved through the C05 refinement; atomicity and durability of a truncation interrupted at any crash point are decided by the crash suite's ghost-state monitor on the real code (exploration); BoltDB's atomic commit is assumed",
+        "partial": "the WAL-level crash statement is a theorem about the I/O-action model Model/Crash.lean (programs of StoreLogs with rotation and base reset, both truncations, Set and Open; process crash and power loss with any per-file choice of surviving un-fsynced batches and directory entries; any number of recoveries themselves cut by crashes), proved for every state satisfying the invariant QuiescentS, which is itself proved to hold initially, after every call and after every recovery; the model is tied to wal.go by the crash suite (per call: the real I/O event sequence = the model's program; per crash point and {process crash, nothing/everything un-fsynced surviving}: the log the real Open recovers = the model's; nested restarts; the invariant evaluated on every shadowed state). Granularity of the model is the batch: that a torn batch is recovered as absent or whole is the byte-level theorem (L1, batch_atomic_any_tear) — the two levels are linked by matching statements and by the chunk-granular crash suite, not by a mechanised composition. what a completed truncation means on the contiguous log is the C05 refinement; a DeleteRange whose meta commit fails with an I/O error is exercised by the fault suite",
         "assumptions": ["atomic durable meta commit (BoltDB)", "disk model of DESIGN §5"],
     },
     "C05": {
@@ -35,7 +35,7 @@ PROPS = {
     },
     "C08": {
         "suites": ["wal", "crash", "conc"],
-        "partial": "the theorem covers every sequential interleaving of Set/Get/SetUint64/GetUint64 with log calls and clean reopens on the model; survival of acknowledged Sets across crashes is checked by the crash suite on simfs (where a Set is one atomic durable event — BoltDB's own crash atomicity is trusted, not modelled); concurrent Set/Get with log calls is exercised by the conc suite when present",
+        "partial": "stable_refines / get-after-set / isolation are theorems of the sequential model; stable_any_crash (stable store before-or-after under every crash point, crash kind and recovery history; after once acknowledged) is a theorem of Model/Crash.lean; concurrency (callers owning different keys, forced interleaving) and aliasing of returned values are checked on the real BoltDB store by the conc suite; BoltDB's atomic durable commit is trusted",
         "assumptions": ["BoltDB: a write transaction is atomic and durable when Commit returns; Get after Put returns the value"],
     },
     "C09": {
@@ -60,7 +60,7 @@ PROPS = {
     },
     "C13": {
         "suites": ["wal", "crash"],
-        "partial": "dir_exact and ids_never_reused are theorems for every sequential run (no reader pins an old state); after a crash that interrupted a truncation or rotation the exact-directory condition is checked on the real code after every Open of the crash suite; deletion deferred by concurrent readers is exercised by the conc suite when present",
+        "partial": "dir_exact and ids_never_reused are theorems for every sequential run; recovered_dir_exact_any_crash (after every recovery the directory holds exactly the live segments' files, ids below NextSegmentID) is a theorem of Model/Crash.lean; the real directory is compared after every call (wal suite, real FS) and after every Open of the crash suite; deletion deferred by concurrent readers is exercised by the conc suite",
         "assumptions": ["VFS Delete = unlink + directory fsync (checked on the real layer by C07)"],
     },
     "C15": {
